@@ -1353,12 +1353,24 @@ def sync_set(eng: Engine, ctx: Ctx, rid: str, model: ReaderModel):
     ctx.check(r1.term[3][0] == ("const", 1) and r1.loops == (model.lid,) and not [c for c in r1.guards if c[0] != ("loop", model.lid, "parsing") and c[0] != model.loop.get("test")], rid, f.qualname, "first read of every iteration",
               expected="unconditional 1-byte read", found=show(r1.term)[:40] + " under " + guard_text(r1.guards)[:60], **eng.loc(f, r1.node))
     found_sets = []
+
+    def member(c):
+        """(set of one-byte strings) when c is `byte1 [not] in <constant collection>`, the byte taken as bytes or as its integer value (`byte1[0]`)"""
+        if not (c[0] == "cmp" and c[1] in ("in", "not in") and is_const(c[3]) and isinstance(c[3][1], (tuple, list, set, frozenset))):
+            return None
+        if c[2] == r1.term:
+            return set(c[3][1])
+        if c[2] == ("idx", r1.term, ("const", 0)) and all(type(x) is int and 0 <= x <= 255 for x in c[3][1]):
+            return {bytes([x]) for x in c[3][1]}
+        return None
+
     for kind, st in iteration_ends(model.loop):
         for c, pol in st.guards:
-            if c[0] == "cmp" and c[1] in ("in", "not in") and c[2] == r1.term and is_const(c[3]) and isinstance(c[3][1], (tuple, list, set, frozenset)):
+            ms = member(c)
+            if ms is not None:
                 outside = (c[1] == "not in") == pol
                 if outside:
-                    found_sets.append((set(c[3][1]), kind, st))
+                    found_sets.append((ms, kind, st))
     if not found_sets:
         ctx.bad(rid, f.qualname, "sync-byte test", expected=f"`byte1 not in {sorted(want)}` -> continue", found="no iteration end guarded by a sync-set membership test of the first byte", **eng.loc(f, r1.node))
         return
@@ -1368,7 +1380,7 @@ def sync_set(eng: Engine, ctx: Ctx, rid: str, model: ReaderModel):
     # no second read on the non-sync path
     for e in model.reads[1:]:
         for conj in e.dnf:
-            bad = any(c[0] == "cmp" and c[1] in ("in", "not in") and c[2] == r1.term and ((c[1] == "not in") == pol) for c, pol in conj)
+            bad = any(member(c) is not None and ((c[1] == "not in") == pol) for c, pol in conj)
             if bad:
                 ctx.bad(rid, f.qualname, norm(e.node), expected="no further read for a non-sync byte", found="read reachable on the non-sync path", **eng.loc(f, e.node))
 
